@@ -49,6 +49,11 @@ SCRIPTS = {
     "recover": ["sched", "RUNNING", "RECOVERY", "ROLLBACK", "sched", "RUNNING", "COMPLETED", "COMPLETED!"],
     "recover_fireable": ["sched", "RECOVERY", "ROLLBACK", "sched", "RUNNING", "COMPLETED"],
     "fail_dup": ["sched", "RUNNING", "FAILED", "FAILED!"],
+    # out-of-order notifications the engine does not emit today but the scheduler API accepts (property C11: "regardless of
+    # the order of notifications"): ROLLBACK straight from RUNNING / FIREABLE, a late RECOVERY after the terminal status
+    "rollback_running": ["sched", "RUNNING", "ROLLBACK", "sched", "RUNNING", "COMPLETED"],
+    "rollback_fireable": ["sched", "ROLLBACK", "sched", "RUNNING", "COMPLETED"],
+    "rollback_then_failed": ["sched", "RUNNING", "ROLLBACK", "FAILED"],
 }
 # an op ending with '!' is a duplicate that a different task of the engine may issue while the previous
 # notification of the same job is still in flight (original _run_job's finally vs. the recovery workflow)
@@ -318,7 +323,8 @@ def cases(tier, retry_delay=0):
     trios = [("ok", "ok", "ok"), ("ok", "dup_done", "fail_fireable"), ("dup_running", "ok", "cancel"),
              ("recover", "ok", "ok"), ("recover_fireable", "ok", "fail_dup")]
     pairs = [("ok", "ok"), ("dup_done", "ok"), ("recover", "ok"), ("fail_dup", "ok"), ("recover", "recover_fireable"),
-             ("cancel", "dup_running"), ("fail_fireable", "ok"), ("recover", "dup_done")]
+             ("cancel", "dup_running"), ("fail_fireable", "ok"), ("recover", "dup_done"),
+             ("rollback_running", "ok"), ("rollback_fireable", "ok"), ("rollback_then_failed", "ok")]
     cfgs = [c for c in CONFIGS if c not in PROBE_CONFIGS]
     for c in PROBE_CONFIGS:
         out.append({"config": c, "scripts": ["ok", "ok"], "bound": 0, "retry_delay": retry_delay})
@@ -440,8 +446,8 @@ def generic_main(prop, module, argv, retry_delay=0, rule_extra=""):
              "RECOVERY->ROLLBACK->re-schedule) x ALL interleavings of the jobs' operations (free choices) x overlap of "
              "operations in time and completion order of the scheduler's own awaits (deviations up to the bound); "
              + rule_extra,
-        assumptions=["per-job notification order is the one the engine emits (step.py _run_job, failure_manager); "
-                     "'regardless of order' is read as the release order ACROSS jobs plus duplicated notifications",
+        assumptions=["per-job notification orders: those the engine emits (step.py _run_job, failure_manager), duplicated "
+                     "notifications, and ROLLBACK arriving straight from RUNNING/FIREABLE; arbitrary release order ACROSS jobs",
                      "wrapper storages are not bound to the inner location (no bind mounts in the configurations)",
                      "environment model of DESIGN.md 2.1"],
         args=args, time_cap=280 if args.tier == "quick" else 1500)
